@@ -8,7 +8,7 @@ VERIFY=1
 [ "$1" = "--noverify" ] && { VERIFY=0; shift; }
 WT=$1; ID=$2; shift 2
 HERE="$(cd "$(dirname "$0")/.." && pwd)"
-ISO=/tmp/intake
+ISO=${INTAKE_DIR:-/tmp/intake}
 if [ "$WT" != "-" ]; then
   [ -f "$WT/SEEDED/patch.diff" ] || { echo "no SEEDED/patch.diff in $WT"; exit 2; }
   if [ $VERIFY = 1 ]; then
